@@ -10,15 +10,15 @@ import (
 // RaceBuild reports whether the binary carries the race detector.
 const RaceBuild = true
 
-func raceDisable()                   { runtime.RaceDisable() }
-func raceEnable()                    { runtime.RaceEnable() }
-func raceAcquire(p unsafe.Pointer)   { runtime.RaceAcquire(p) }
-func raceRelease(p unsafe.Pointer)   { runtime.RaceReleaseMerge(p) }
-func raceErrors() int                { return runtime.RaceErrors() }
-func raceSync(p unsafe.Pointer)      { runtime.RaceAcquire(p); runtime.RaceReleaseMerge(p) }
-func RaceErrors() int                { return runtime.RaceErrors() }
-func RaceDisable()                   { runtime.RaceDisable() }
-func RaceEnable()                    { runtime.RaceEnable() }
+func raceDisable()                 { runtime.RaceDisable() }
+func raceEnable()                  { runtime.RaceEnable() }
+func raceAcquire(p unsafe.Pointer) { runtime.RaceAcquire(p) }
+func raceRelease(p unsafe.Pointer) { runtime.RaceReleaseMerge(p) }
+func raceErrors() int              { return runtime.RaceErrors() }
+func raceSync(p unsafe.Pointer)    { runtime.RaceAcquire(p); runtime.RaceReleaseMerge(p) }
+func RaceErrors() int              { return runtime.RaceErrors() }
+func RaceDisable()                 { runtime.RaceDisable() }
+func RaceEnable()                  { runtime.RaceEnable() }
 
 // HandOver/TakeOver let the harness model a user-level hand-over of data between goroutines
 // (e.g. a callback publishing what it was given) so that the detector sees it as synchronised.
